@@ -48,8 +48,9 @@ func (m vfHSMapper) GetHandler(name string) (context.Handler, bool) {
 	return h, ok
 }
 
-// vfHSWorld builds the supervisor the specs belong to: business controller gf1 (an empty
-// GlobalFilter) exists, `nope` does not; pipelines pl1 / pl2 exist.
+// vfHSWorld builds the supervisor the specs belong to: business controllers gf1 (an empty
+// GlobalFilter) and acm1 (an AutoCertManager, i.e. another kind) exist, `nope` does not;
+// pipelines pl1 / pl2 exist.
 func vfHSWorld(t *testing.T) (*supervisor.Supervisor, vfHSMapper) {
 	s0 := supervisor.NewDefaultMock()
 	gfSpec, err := s0.NewSpec("name: gf1\nkind: GlobalFilter\n")
@@ -63,6 +64,14 @@ func vfHSWorld(t *testing.T) (*supervisor.Supervisor, vfHSMapper) {
 	ent.InitWithRecovery(nil)
 	var bc sync.Map
 	bc.Store("gf1", ent)
+	// acm1: a business controller that is not a GlobalFilter (the globalFilter field of an HTTPServer
+	// is a free string: validation cannot know what the named object is). Never initialised: the
+	// server only looks the object up.
+	acm, err := s0.NewObjectEntityFromConfig("kind: AutoCertManager\nname: acm1\ndirectoryURL: https://127.0.0.1:1/directory\nemail: vf@example.com\nrenewBefore: 720h\nenableHTTP01: true\ndomains:\n- name: vf.example.com\n")
+	if err != nil {
+		t.Fatalf("VF-INCONCLUSIVE fixed AutoCertManager spec rejected: %v", err)
+	}
+	bc.Store("acm1", acm)
 	super := supervisor.NewMock(nil, nil, bc, sync.Map{}, nil, nil, false, nil, nil)
 	mapper := vfHSMapper{m: map[string]context.Handler{}}
 	for _, n := range []string{"pl1", "pl2"} {
@@ -190,6 +199,31 @@ func TestVerifC13HTTPServer(t *testing.T) {
 			tree["rules"] = []interface{}{rm}
 			g.present["rules"] = true
 		}
+		// what the globalFilter field names: nothing / a real GlobalFilter / an existing business
+		// controller of another kind / no object at all (each class is frequent by construction)
+		if g.chance("globalFilter", "class", 60) {
+			switch g.pick("globalFilter", "names", "global-filter", "other-kind", "missing", "other-kind", "absent") {
+			case "global-filter":
+				tree["globalFilter"] = "gf1"
+			case "other-kind":
+				tree["globalFilter"] = "acm1"
+			case "missing":
+				tree["globalFilter"] = "nope"
+			case "absent":
+				delete(tree, "globalFilter")
+			}
+		}
+		gfClass := "absent"
+		switch n, _ := tree["globalFilter"].(string); n {
+		case "":
+		case "gf1":
+			gfClass = "global-filter"
+		case "acm1":
+			gfClass = "other-kind"
+		default:
+			gfClass = "missing"
+		}
+		g.bounds["globalfilter:names-"+gfClass] = true
 		port := vfPickPort()
 		if port == 0 {
 			rt.Fatalf("VF-INCONCLUSIVE no free TCP port")
@@ -330,6 +364,9 @@ func TestVerifC13HTTPServer(t *testing.T) {
 			handled++
 			classes = append(classes, class)
 			vf.Class(fmt.Sprintf("status=%d", w.Code))
+			if w.Code == 200 {
+				vf.Class("request-reached-backend globalFilter=" + gfClass)
+			}
 		}
 		// one request through the real listener (limit listener, keep-alive settings, TLS config)
 		if r.getState() == stateRunning && g.chance("req", "socket", 4) {
